@@ -23,7 +23,7 @@ ASSUME = [
 
 INTS = {0: 0, 1: 7, 2: 12, 3: -3, 4: 2 ** 62 + 1}      # id 4 has more than 53 significant bits: not a float
 FLOATS = {0: 1.5, 1: 1e-5, 2: 0.1 + 0.2, 3: -2.5e300}
-PLAIN = {0: "ab", 1: "#ff8800", 2: "x-y.z", 99: "None"}      # 1: a colour code - text that starts with the usual comment character
+PLAIN = {0: "\u00b5m", 1: "#ff8800", 2: "x-y.z", 99: "None"}      # 1: a colour code - text that starts with the usual comment character
 
 
 class Tok(object):
@@ -291,7 +291,7 @@ def record_traces(n, maxlen, seed, wd):
     names = st.sampled_from(NAMEPOOL)
     ints = st.one_of(st.integers(-5, 5), st.integers(-2 ** 62, 2 ** 62))
     floats = st.floats(allow_nan=False, allow_infinity=False, width=64)
-    plains = st.sampled_from(["ab", "xy", "x-y.z", "tilt_x", "1e", "0x1f", "--", "e5", "1.2.3", "+-1", "#ff8800", "#", "#12", ";x", "%a", "!b", "//c", "x" * 41, "/data/visitor/ma1234/id11/sample_7/edf/"])
+    plains = st.sampled_from(["ab", "xy", "x-y.z", "tilt_x", "1e", "0x1f", "--", "e5", "1.2.3", "+-1", "#ff8800", "#", "#12", ";x", "%a", "!b", "//c", "x" * 41, "/data/visitor/ma1234/id11/sample_7/edf/", "\u00b5m", "\u00c5ngstr\u00f6m"])
     # value spec: (kind, payload)
     vals = st.one_of(ints.map(lambda i: ("int", i)), floats.map(lambda f: ("float", f)),
                      plains.map(lambda s: ("str_plain", s)), st.just(("str_empty", None)),
